@@ -10,32 +10,27 @@
       server/routes.go                          ([get_existing_name*] : getExistingName)
     Strings are byte lists ([str = list N]).  Definitions only; proofs are in Proofs.v. *)
 From Coq Require Import List NArith ZArith Bool Arith.
-From Coq Require Ascii String.
-From V Require Import Common.Bytes.
+From V Require Import Common.Bytes Names.Path.
 Import ListNotations.
 Open Scope N_scope.
 
 (** * literals *)
-Definition lit (s : String.string) : str := map Ascii.N_of_ascii (String.list_ascii_of_string s).
-
-Definition c_slash : N := 47.   (* '/' *)
 Definition c_colon : N := 58.   (* ':' *)
 Definition c_at : N := 64.      (* '@' *)
-Definition c_dot : N := 46.     (* '.' *)
 Definition c_dash : N := 45.    (* '-' *)
 Definition c_us : N := 95.      (* '_' *)
 
-Definition s_missing : str := Eval vm_compute in lit "!MISSING!"%string.
-Definition s_default_host : str := Eval vm_compute in lit "registry.ollama.ai"%string.
-Definition s_default_namespace : str := Eval vm_compute in lit "library"%string.
-Definition s_default_tag : str := Eval vm_compute in lit "latest"%string.
-Definition s_scheme_sep : str := Eval vm_compute in lit "://"%string.
-Definition s_https : str := Eval vm_compute in lit "https"%string.
-Definition s_http : str := Eval vm_compute in lit "http"%string.
-Definition s_https_insecure : str := Eval vm_compute in lit "https+insecure"%string.
-Definition s_sha256 : str := Eval vm_compute in lit "sha256"%string.
-Definition s_manifests : str := Eval vm_compute in lit "manifests"%string.
-Definition s_blobs : str := Eval vm_compute in lit "blobs"%string.
+Definition s_missing : str := [33; 77; 73; 83; 83; 73; 78; 71; 33].   (* "!MISSING!" *)
+Definition s_default_host : str := [114; 101; 103; 105; 115; 116; 114; 121; 46; 111; 108; 108; 97; 109; 97; 46; 97; 105].   (* "registry.ollama.ai" *)
+Definition s_default_namespace : str := [108; 105; 98; 114; 97; 114; 121].   (* "library" *)
+Definition s_default_tag : str := [108; 97; 116; 101; 115; 116].   (* "latest" *)
+Definition s_scheme_sep : str := [58; 47; 47].   (* "://" *)
+Definition s_https : str := [104; 116; 116; 112; 115].   (* "https" *)
+Definition s_http : str := [104; 116; 116; 112].   (* "http" *)
+Definition s_https_insecure : str := [104; 116; 116; 112; 115; 43; 105; 110; 115; 101; 99; 117; 114; 101].   (* "https+insecure" *)
+Definition s_sha256 : str := [115; 104; 97; 50; 53; 54].   (* "sha256" *)
+Definition s_manifests : str := [109; 97; 110; 105; 102; 101; 115; 116; 115].   (* "manifests" *)
+Definition s_blobs : str := [98; 108; 111; 98; 115].   (* "blobs" *)
 
 (** * outcomes *)
 Inductive err := ENotExist | EInvalidDigest | EInvalidName | EBadScheme.
@@ -91,37 +86,11 @@ Definition cut_sub (sep s : str) : option (str * str) :=
   | None => None
   end.
 
-(** strings.Split(s, string(c)): always at least one element *)
-Fixpoint split_on (c : N) (s : str) : list str :=
-  match s with
-  | [] => [[]]
-  | x :: s' =>
-      if x =? c then [] :: split_on c s'
-      else match split_on c s' with
-           | [] => [[x]]   (* unreachable: split_on never returns [] *)
-           | h :: t => (x :: h) :: t
-           end
-  end.
-
 (** strings.ReplaceAll for single bytes *)
 Definition replace_byte (a b : N) (s : str) : str := map (fun c => if c =? a then b else c) s.
 
 (** cmp.Or on strings *)
 Definition or_str (a b : str) : str := match a with [] => b | _ => a end.
-
-Fixpoint intercalate (sep : str) (l : list str) : str :=
-  match l with
-  | [] => []
-  | [x] => x
-  | x :: t => x ++ sep ++ intercalate sep t
-  end.
-
-Definition nonempty (s : str) : bool := match s with [] => false | _ => true end.
-
-(** filepath.Join on components that need no cleaning (see Clean.v for filepath.Clean itself): empty elements are
-    ignored, the rest joined with '/'.  Every use below passes a clean root and components that have been
-    validated (no separator, not "." or ".."), for which Clean is the identity (lemma [fp_clean_join_safe]). *)
-Definition path_join (parts : list str) : str := intercalate [c_slash] (filter nonempty parts).
 
 (** strings.EqualFold(a, u) when [a] is ASCII and [u] is arbitrary: below 0x80 only upper/lower pairs fold; the
     only non-ASCII runes in the simple-fold orbit of an ASCII rune are U+212A KELVIN SIGN (k, K) = E2 84 AA and
@@ -147,39 +116,39 @@ Definition in_rng (lo hi c : N) : bool := (lo <=? c) && (c <=? hi).
 Definition is_cont (c : N) : bool := in_rng 128 191 c.
 Definition rune_width (s : str) : nat :=
   match s with
-  | [] => 0
+  | [] => 0%nat
   | c :: r =>
-      if c <? 128 then 1
+      if c <? 128 then 1%nat
       else
         (* (size, accept range of the second byte) by first byte *)
         let info : option (nat * N * N) :=
-          if in_rng 194 223 c then Some (2, 128, 191)
-          else if c =? 224 then Some (3, 160, 191)
-          else if in_rng 225 236 c then Some (3, 128, 191)
-          else if c =? 237 then Some (3, 128, 159)
-          else if in_rng 238 239 c then Some (3, 128, 191)
-          else if c =? 240 then Some (4, 144, 191)
-          else if in_rng 241 243 c then Some (4, 128, 191)
-          else if c =? 244 then Some (4, 128, 143)
+          if in_rng 194 223 c then Some (2%nat, 128, 191)
+          else if c =? 224 then Some (3%nat, 160, 191)
+          else if in_rng 225 236 c then Some (3%nat, 128, 191)
+          else if c =? 237 then Some (3%nat, 128, 159)
+          else if in_rng 238 239 c then Some (3%nat, 128, 191)
+          else if c =? 240 then Some (4%nat, 144, 191)
+          else if in_rng 241 243 c then Some (4%nat, 128, 191)
+          else if c =? 244 then Some (4%nat, 128, 143)
           else None in
         match info with
-        | None => 1
+        | None => 1%nat
         | Some (sz, lo, hi) =>
             match r with
             | c1 :: r1 =>
-                if negb (in_rng lo hi c1) then 1
-                else if (sz =? 2)%nat then 2
+                if negb (in_rng lo hi c1) then 1%nat
+                else if (sz =? 2)%nat then 2%nat
                 else match r1 with
                      | c2 :: r2 =>
-                         if negb (is_cont c2) then 1
-                         else if (sz =? 3)%nat then 3
+                         if negb (is_cont c2) then 1%nat
+                         else if (sz =? 3)%nat then 3%nat
                          else match r2 with
-                              | c3 :: _ => if is_cont c3 then 4 else 1
-                              | [] => 1
+                              | c3 :: _ => if is_cont c3 then 4%nat else 1%nat
+                              | [] => 1%nat
                               end
-                     | [] => 1
+                     | [] => 1%nat
                      end
-            | [] => 1
+            | [] => 1%nat
             end
         end
   end.
@@ -270,7 +239,7 @@ Definition m_is_valid := m_is_fq.
 
 (** Filepath: panics unless fully qualified *)
 Definition m_filepath (n : mname) : res str :=
-  if m_is_fq n then Ok (path_join [mH n; mN n; mM n; mT n]) else Panic.
+  if m_is_fq n then Ok (fp_join [mH n; mN n; mM n; mT n]) else Panic.
 
 Definition m_empty : mname := MkM [] [] [] [].
 Definition m_parse_from_filepath (s : str) : mname :=
@@ -334,7 +303,17 @@ Fixpoint n_valid_runes (fuel : nat) (k : pk) (first : bool) (s : str) : bool :=
 Definition n_valid_part (k : pk) (s : str) : bool :=
   (length s <=? (match k with KHost => 350 | _ => 80 end))%nat && n_valid_runes (S (length s)) k true s.
 
+(** Name.IsValid on the unchanged tree: a host without a namespace ("h//m") is accepted although String() prints it
+    as "h/m", which parses back as namespace "h" (refuted round trip, see Properties_C13) *)
+Definition n_is_valid_unrepaired (n : nname) : bool :=
+  (negb (nonempty (nH n)) || n_valid_part KHost (nH n)) &&
+  (negb (nonempty (nN n)) || n_valid_part KNamespace (nN n)) &&
+  (negb (nonempty (nT n)) || n_valid_part KTag (nT n)) &&
+  (nonempty (nM n) && n_valid_part KModel (nM n)).
+
+(** Name.IsValid after fixes/C13-names-host-without-namespace.patch: the first test rejects host-without-namespace *)
 Definition n_is_valid (n : nname) : bool :=
+  negb (nonempty (nH n) && negb (nonempty (nN n))) &&
   (negb (nonempty (nH n)) || n_valid_part KHost (nH n)) &&
   (negb (nonempty (nN n)) || n_valid_part KNamespace (nN n)) &&
   (negb (nonempty (nT n)) || n_valid_part KTag (nT n)) &&
@@ -373,7 +352,7 @@ Definition mp_name (mp : modelpath) : mname := MkM (mpRegistry mp) (mpNamespace 
 Definition mp_manifest_path (root : str) (mp : modelpath) : res str :=
   if m_is_valid (mp_name mp)
   then match m_filepath (mp_name mp) with
-       | Ok fp => Ok (path_join [root; s_manifests; fp])
+       | Ok fp => Ok (fp_join [root; s_manifests; fp])
        | Err e => Err e
        | Panic => Panic
        end
@@ -390,7 +369,7 @@ Definition digest_re_match (d : str) : bool :=
 (** GetBlobsPath (the MkdirAll side effect is not modelled) *)
 Definition get_blobs_path (root d : str) : res str :=
   if nonempty d && negb (digest_re_match d) then Err EInvalidDigest
-  else Ok (path_join [root; s_blobs; replace_byte c_colon c_dash d]).
+  else Ok (fp_join [root; s_blobs; replace_byte c_colon c_dash d]).
 
 (** * server/internal/cache/blob *)
 Definition hex_val (c : N) : option N :=
@@ -425,9 +404,9 @@ Definition b_parse_digest (s : str) : res (list N) :=
            | None => Err EInvalidDigest
            end
   end.
-(** DiskCache.GetFile (dir absolute and clean) *)
-Definition b_get_file (dir : str) (sum : list N) : str :=
-  path_join [dir; s_blobs; s_sha256 ++ [c_dash] ++ hex_encode sum].
+(** DiskCache.GetFile = absJoin(c.dir, "blobs", "sha256-%x"); [cwd] is os.Getwd() *)
+Definition b_get_file (cwd dir : str) (sum : list N) : str :=
+  fp_abs cwd (fp_join [dir; s_blobs; s_sha256 ++ [c_dash] ++ hex_encode sum]).
 
 (** splitNameDigest *)
 Definition b_split_name_digest (s : str) : str * str :=
@@ -439,16 +418,16 @@ Definition b_split_name_digest (s : str) : str * str :=
 (** nameToPath *)
 Definition b_name_to_path (name : str) : res str :=
   let n := n_parse name in
-  if n_is_fq n then Ok (path_join [nH n; nN n; nM n; nT n]) else Err EInvalidName.
+  if n_is_fq n then Ok (fp_join [nH n; nN n; nM n; nT n]) else Err EInvalidName.
 
 (** manifestPath: [links] is what c.links() yields (fs.Glob "manifests/*/*/*/*", slash separated, relative) *)
 Definition b_manifest_path (dir : str) (links : list str) (name : str) : res str :=
   match b_name_to_path name with
   | Ok np =>
-      let maybe := path_join [s_manifests; np] in
+      let maybe := fp_join [s_manifests; np] in
       match find (fun l => equal_fold_au maybe l) links with
-      | Some l => Ok (path_join [dir; l])
-      | None => Ok (path_join [dir; maybe])
+      | Some l => Ok (fp_join [dir; l])
+      | None => Ok (fp_join [dir; maybe])
       end
   | Err e => Err e
   | Panic => Panic
@@ -484,7 +463,7 @@ Definition r_parse_name_extended (mask : nname) (s : str) : res (str * nname * o
     if nonempty digest then
       match b_parse_digest digest with
       | Ok d => if nonempty name then continue_ (Some d) else Ok (scheme, n_empty, Some d)
-      | Err _ => Err EInvalidName
+      | Err _ => Err EInvalidDigest
       | Panic => Panic
       end
     else continue_ None.
